@@ -57,6 +57,7 @@ func methodTableComplete(c *Ctx, rule string, ms []nativeMethod, protos ...strin
 func runC16(c *Ctx) {
 	defer stringIndexArm(c, "R5")
 	defer c.shared("R10", "C10/R2", "num and json are what a program finds under those names in every evaluator: the runtime functions are installed in cells of the evaluator's own, not in cells of a package-level table that every evaluator (the one made per input value for a root selector included) shares and any program can assign to", keyHas("shared-reference"), c10R2)
+	defer c.shared("R11", "C04/R6", "json() called with unexpected arguments is an error, not a crash: it takes its one argument through the argument-count check and returns the encoder's text for it (no optional indent turned into a Repeat count)", keyHas("builtin json"), runC04)
 	defer c.shared("R9", "C17/R2", "pluck names a key given as a number by the number's text: numbers are turned into text by FormatFloat(x, 'f', -1, 64) only (no integer fast path that misspells huge or fractional keys)", ruleIs("R2"), runC17)
 	defer c.shared("R8", "C01/R7", "methods are available on every value of their kind: every string / number / object value is built with its prototype (a piece returned by split without it cannot be asked for its length)", keyHas(" prototype"), func(s *Ctx) { payloadUnderTag(s, "R7") })
 	defer c.shared("R6", "C15/R1", "a method acts on its own receiver: the lookup returns a cell bound to that receiver, never the shared prototype cell (which a lookup inside the argument list would rebind)", nil, func(s *Ctx) { receiverPerCall(s, "R1") })
